@@ -25,7 +25,7 @@ def run_item(item, cache):
     if not out["pre"]:
         return out
     try:
-        r = o.fn(**args)
+        r = (o.concrete if o.kind == "smt" else o.fn)(**args)
         out["holds"] = bool(r)
     except Exception as e:  # noqa
         out["holds"] = False
